@@ -327,6 +327,37 @@ def run(ctx):
                       "property=C06 %s cadence: snapshot %s restored differs from the live simulation right after it was written in %s (snapshot next_step=%s next=%s, live next_step=%s next=%s)"
                       % (job["mode"], b0.get("snapshot"), b0.get("fields"), b0.get("snapshot_next_step"), b0.get("snapshot_next"), b0.get("live_next_step"), b0.get("live_next")))
 
+    # ---- history vs fresh: an object that was attached to archive A and then detached / re-attached / switched to archive B / changed
+    #      cadence / reused the file name after delete_file / was restored from a snapshot must write the same snapshots as a FRESH object
+    #      holding the same state that is attached once
+    hjobs = []
+    for v in ("switch_file", "same_file", "reuse_name_delete", "switch_mode_delete", "restored", "detach", "manual_switch"):
+        for rep in range(ctx.scale(2, 12)):
+            dt = rng.choice([0.02, -0.02, 0.05, -0.013])
+            i1 = abs(dt) * (rng.randint(1, 5) + 0.37); i2 = abs(dt) * (rng.randint(1, 5) + 0.61)
+            c1 = rng.choice([("interval", i1), ("interval", i1), ("step", rng.randint(1, 5))])
+            if v == "switch_mode_delete":
+                c2 = ("step", rng.randint(1, 5)) if c1[0] == "interval" else ("interval", i2)
+            elif v == "reuse_name_delete":
+                c2 = rng.choice([c1, ("interval", i2) if c1[0] == "interval" else ("step", c1[1] + 1)])
+            else:
+                c2 = ("interval", i2) if c1[0] == "interval" else ("step", c1[1] + rng.randint(1, 3))
+            hjobs.append({"kind": "hvf", "variant": v, "dt": dt, "integrator": rng.choice(["whfast", "leapfrog"]), "c1": list(c1), "c2": list(c2),
+                          "n": rng.choice([1, 2, 3]), "n1": rng.randint(3, 15), "n2": rng.randint(5, 20), "nd": rng.randint(1, 6), "k": rng.choice([0, -1, 1]), "t0": rng.choice([0.0, 1.5, -2.0])})
+    hres = run_jobs(libdir, [hjobs[i:i + 3] for i in range(0, len(hjobs), 3)], timeout=120)
+    hres = [x for b in hres for x in (b if isinstance(b, list) else [{"died": str(b)}] * 3)]
+    hbad = []
+    for job, r in zip(hjobs, hres):
+        ctx.case(key=("hvf", job["variant"], job["dt"], tuple(job["c1"]), tuple(job["c2"]), job["n1"], job["n2"]), nontrivial=r.get("n_fresh", 0) >= 2,
+                 sample={"history_vs_fresh": job, "snapshots": [r.get("n_hist"), r.get("n_fresh")]} if len(ctx.samples) < 6 else None)
+        if r.get("nbad") or "died" in r:
+            hbad.append((job, r))
+    if hbad:
+        job, r = min(hbad, key=lambda jr: jr[0]["n1"] + jr[0]["n2"])
+        ctx.violation("history-vs-fresh-%s" % job["variant"], {"job": job, "result": r, "how": "tools/c06_driver.py job_hvf", "n_cases": len(hbad)}, True,
+                      "property=C06 an object with an archive history (%s; first %s, then %s) does not write the same snapshots as a fresh object holding the same state: %s"
+                      % (job["variant"], job["c1"], job["c2"], (r.get("bad") or [r.get("died")])[0]))
+
     # ---- cadence value 0 = disabled, for all three cadences
     dr = run_jobs(libdir, [[{"kind": "disabled"}]], timeout=60)[0]
     d0 = dr[0] if isinstance(dr, list) else {"died": str(dr)}
